@@ -20,13 +20,14 @@ import (
 	"github.com/free5gc/go-upf/internal/verif/pipeline"
 	"github.com/free5gc/go-upf/internal/verif/rulepath"
 	"github.com/free5gc/go-upf/internal/verif/simkernel"
+	"github.com/free5gc/go-upf/internal/verif/stack"
 	"github.com/free5gc/go-upf/internal/verif/vcore"
 )
 
 func TestMain(m *testing.M) {
 	vcore.Init("C02", "exploration",
 		"Create/Update PDR and FAR drawn as semantic records (PDR id, precedence, PDI{source interface Access/Core/SGi/CP, F-TEID (IPv4 or dual stack V4|V6), UE IP address (IPv4, or IPv4v6 with both addresses), 0-3 SDF filters with grammar-generated flow description and/or filter id, ignored Network Instance / Application ID}, outer-header removal, FAR id, 0-4 QER ids, 0-4 URR ids; "+
-			"FAR id, apply action in 1- and 2-octet form, (Update) Forwarding Parameters{destination interface, network instance, outer-header creation GTP-U/UDP/IPv4 or UDP/IPv4, forwarding policy, PFCPSM request flags}, BAR id), numeric fields boundary-biased, SEIDs over the 64-bit range, "+
+			"FAR id, apply action in 1- and 2-octet form, (Update) Forwarding Parameters{destination interface, network instance, outer-header creation GTP-U/UDP/IPv4 or UDP/IPv4, forwarding policy identifier of 1..255 octets, PFCPSM request flags}, BAR id), numeric fields boundary-biased, SEIDs over the 64-bit range, "+
 			"rendered to a grouped IE with a drawn permutation of its children (and of the PDI's / forwarding parameters' children) and passed to the real Gtp5g.CreatePDR/UpdatePDR/CreateFAR/UpdateFAR on a simulated netlink endpoint. "+
 			"Oracle: the captured request is decoded by a strict attribute walker (widths, no surplus or duplicate attributes) into a canonical rule and compared field by field with the value computed from the record alone "+
 			"(command, EXCL/REPLACE flags, link, (SEID, id), every SDF filter with src/dst swapped for uplink, PDR_UNIX_SOCKET_PATH, PFCPSM flags ...); cross-checked with gtp5gnl.DecodePDR/DecodeFAR; metamorphic: a second rendering with another child order must give the same canonical rule. "+
@@ -695,21 +696,21 @@ func submit(c Case, order, sub []int) (simkernel.Request, bool, *vcore.Violation
 		case c.PDR != nil && !c.PDR.Update:
 			i, id := c.PDR.IE(order, sub)
 			ident = id
-			_ = d.G.CreatePDR(c.PDR.SEID, i)
+			_ = d.G.CreatePDR(c.PDR.SEID, stack.OffWire(i))
 		case c.PDR != nil:
 			i, id := c.PDR.IE(order, sub)
 			ident = id
-			_ = d.G.UpdatePDR(c.PDR.SEID, i)
+			_ = d.G.UpdatePDR(c.PDR.SEID, stack.OffWire(i))
 		case c.FAR != nil && !c.FAR.Update:
 			i, id := c.FAR.IE(order, sub)
 			ident = id
 			wantCmd = gtp5gnl.CMD_ADD_FAR
-			_ = d.G.CreateFAR(c.FAR.SEID, i)
+			_ = d.G.CreateFAR(c.FAR.SEID, stack.OffWire(i))
 		default:
 			i, id := c.FAR.IE(order, sub)
 			ident = id
 			wantCmd = gtp5gnl.CMD_ADD_FAR
-			_ = d.G.UpdateFAR(c.FAR.SEID, i)
+			_ = d.G.UpdateFAR(c.FAR.SEID, stack.OffWire(i))
 		}
 	}()
 	var adds []simkernel.Request
@@ -917,7 +918,9 @@ func genFAR(t *rapid.T) *FAR {
 			f.OHC = &OHC{GTPU: rapid.Bool().Draw(t, "gtpu"), TEID: u32gen.Draw(t, "teid"), IP: ipgen(t, "peer"), Port: u16gen.Draw(t, "port")}
 		}
 		if rapid.IntRange(0, 2).Draw(t, "haspol") == 0 {
-			f.Policy = ptr(rapid.StringMatching(`[a-zA-Z0-9_-]{1,20}`).Draw(t, "policy"))
+			// the identifier's length is one octet: 1..255 octets, boundary-biased
+			pl := rapid.OneOf(rapid.IntRange(1, 20), rapid.IntRange(1, 255), rapid.SampledFrom([]int{1, 63, 64, 127, 128, 253, 254, 255})).Draw(t, "policy_len")
+			f.Policy = ptr(rapid.StringMatching(fmt.Sprintf(`[a-zA-Z0-9_-]{%d}`, pl)).Draw(t, "policy"))
 		}
 		if f.Update && rapid.IntRange(0, 2).Draw(t, "hassm") == 0 {
 			f.SMReq = ptr(rapid.SampledFrom([]uint8{0, 1, 2, 4, 7, 255}).Draw(t, "smreq"))
